@@ -29,6 +29,13 @@ all:
 # (sanitizer report, exception, wrong result) attributed to one case instead of killing the run.
 $(B)/c12_args.% $(B)/c15_davidson.% $(B)/c04_select.%: COMMON += -DNDEBUG
 
+# the same E1 harness sources instantiated for float / long double (thorough tiers)
+$(B)/%_float.plain: harness/%.cpp | $(B)
+	$(CXX) $(COMMON) $(PLAIN) -DVF_SCALAR=float -MF $@.d -o $@ $< $(LIBS)
+
+$(B)/%_ld.plain: harness/%.cpp | $(B)
+	$(CXX) $(COMMON) $(PLAIN) '-DVF_SCALAR=long double' -MF $@.d -o $@ $< $(LIBS)
+
 $(B)/%.plain: harness/%.cpp | $(B)
 	$(CXX) $(COMMON) $(PLAIN) -MF $@.d -o $@ $< $(LIBS)
 
